@@ -1558,3 +1558,10 @@ pub mod verif_hooks_c09;
 #[cfg(feature = "verif-hooks")]
 #[path = "verif_hooks_c10.rs"]
 pub mod verif_hooks_c10;
+
+/// Verification hooks for the RIB unit's metrics (feature `verif-hooks`,
+/// add-only); a child module because the runner's fields are private to
+/// this module.
+#[cfg(feature = "verif-hooks")]
+#[path = "verif_hooks_ribmetrics.rs"]
+pub mod verif_hooks_ribmetrics;
